@@ -34,10 +34,22 @@
    a symbolic link put at the path), every split of the content into chunks and every order of the outputs
    that content is the concatenation of the chunks, the execution is C12_Model.run on these contents, the temp
    directory ends empty, and the predicate of C12_FsSpec (C12_Spec.P for the contents at exit) holds of the
-   model.  The patch file's YAML stays an oracle (any classification of byte strings into the four kinds). *)
+   model.  The patch file's YAML stays an oracle (any classification of byte strings into the four kinds).
+   WHERE THE HOOK IS STARTED (theorems C12_place_...): "a hook is started in its own directory" over HOW the hook
+   file is present in the hooks tree.  A tree of directories, files and symbolic links (absolute / relative
+   targets with "..", chains, links to directories) with namei as the operating system does it (C12_PlaceModel);
+   Hook.Run starts the process with chdir(directory part of the path the hook manager holds), execve(that
+   path).  Proved for EVERY tree, every hooks root (reached through links or not) and every hook found below
+   it through real directories: a started hook runs in the directory it was found in, whatever its entry is
+   bound to (a regular file, a link into another directory, out of the tree, a chain, a double link); hooks
+   in different directories linked to one script run in different directories; the entry point is the path
+   itself; the model's observation satisfies the predicate of C12_PlaceSpec (working directory and the
+   ./settings the process finds).  That the real process does what chdir/execve are modelled to do stays
+   observed (the PLACE cases of the correspondence), as every OS fact. *)
 From Verif Require Import Common Json JsonText JsonText_Proofs C12_Model C12_Spec C12_Corr C12_Proofs.
 From Verif Require Import C12_ConcModel C12_ConcSpec C12_ConcProofs.
 From Verif Require Import C12_FsModel C12_FsSpec C12_FsProofs.
+From Verif Require Import C12_PlaceModel C12_PlaceSpec C12_PlaceProofs.
 Open Scope N_scope.
 
 (* all temporary files of an execution are deleted when it ends, whatever the outcome —
@@ -559,4 +571,102 @@ Example C12_conc_hyp_met :
               mkCE true true true true [5; 6; 7; 8; 9] true (mkSeen true [] true None) 0 true;
               mkCE true true true true [10; 11; 12; 13; 14] true (mkSeen true [(1, 8, 4, 1); (2, 9, 0, 2)] true None) 1 false]
              0 [] false) = false.
+Proof. vm_compute. repeat split; reflexivity. Qed.
+
+(* ------------------------------------------------------------------ where the hook is started *)
+
+(* for every tree s, every hooks root R (resolving to directory r, through links or not), every hook found
+   below it through the real directories ns as the entry n of directory d: if the hook starts, it runs in d -
+   whatever n is bound to *)
+Theorem C12_place_cwd_is_own_dir : forall s R r ns d n,
+  resolve s R = Some (RDir r) -> descend s r ns = Some d ->
+  l_started (launch s (R ++ ns ++ [n])) = true ->
+  l_cwd (launch s (R ++ ns ++ [n])) = d.
+Proof. exact place_cwd_is_own_dir. Qed.
+Print Assumptions C12_place_cwd_is_own_dir.
+
+(* two trees that differ in what the hook's entry is bound to (or in anything else that leaves the
+   directories on the way alone): the same working directory *)
+Theorem C12_place_cwd_target_irrelevant : forall s s' R r r' ns d n,
+  resolve s R = Some (RDir r) -> descend s r ns = Some d ->
+  resolve s' R = Some (RDir r') -> descend s' r' ns = Some d ->
+  l_started (launch s (R ++ ns ++ [n])) = true -> l_started (launch s' (R ++ ns ++ [n])) = true ->
+  l_cwd (launch s (R ++ ns ++ [n])) = l_cwd (launch s' (R ++ ns ++ [n])).
+Proof. exact place_cwd_target_irrelevant. Qed.
+Print Assumptions C12_place_cwd_target_irrelevant.
+
+(* hooks found in different directories run in different directories, also when both are links to one script *)
+Theorem C12_place_shared_script_own_dirs : forall s R r ns1 ns2 d1 d2 n1 n2,
+  resolve s R = Some (RDir r) -> descend s r ns1 = Some d1 -> descend s r ns2 = Some d2 -> d1 <> d2 ->
+  l_started (launch s (R ++ ns1 ++ [n1])) = true -> l_started (launch s (R ++ ns2 ++ [n2])) = true ->
+  l_cwd (launch s (R ++ ns1 ++ [n1])) <> l_cwd (launch s (R ++ ns2 ++ [n2])).
+Proof. exact place_shared_script_own_dirs. Qed.
+Print Assumptions C12_place_shared_script_own_dirs.
+
+(* a hook starts iff the directory part of its path is a directory and the path leads (through any links) to
+   an executable regular file *)
+Theorem C12_place_started_iff : forall s p,
+  l_started (launch s p) = true <->
+  (exists d i, resolve s (dir_part p) = Some (RDir d) /\ resolve s p = Some (RFile true i)).
+Proof. exact launch_started_iff. Qed.
+Print Assumptions C12_place_started_iff.
+
+(* the entry point the process sees is the path the hook manager holds, not what it resolves to *)
+Theorem C12_place_entry_point_is_path : forall s p, l_started (launch s p) = true -> l_argv0 (launch s p) = p.
+Proof. exact launch_argv0. Qed.
+Print Assumptions C12_place_entry_point_is_path.
+
+(* the model's observation of a hook with an own directory satisfies the predicate: for all trees *)
+Theorem C12_place_model_P : forall i o d,
+  po_rel o <> [] -> own_dir i (po_rel o) = Some d -> P_place1 i (C12_Corr.model_pobs i o) = true.
+Proof. exact place_corr_model_P. Qed.
+Print Assumptions C12_place_model_P.
+
+(* no hypothesis about the hook: EVERY entry a walk below the hooks root through real directories can report
+   (to any depth k; the filters of the real discovery only take entries away) *)
+Theorem C12_place_found_model_P : forall k i r o,
+  hooks_root_dir i = Some r -> In (po_rel o) (found k (pi_fs i) r) -> P_place1 i (C12_Corr.model_pobs i o) = true.
+Proof. exact place_corr_found_model_P. Qed.
+Print Assumptions C12_place_found_model_P.
+
+(* and every such entry has an own directory *)
+Theorem C12_place_found_has_own_dir : forall k s d rel,
+  In rel (found k s d) -> rel <> [] /\ exists d', descend s d (removelast rel) = Some d'.
+Proof. exact found_has_own_dir. Qed.
+Print Assumptions C12_place_found_has_own_dir.
+
+Theorem C12_place_model_agrees_itself : forall i o, agrees_place1 i (C12_Corr.model_pobs i o) = true.
+Proof. exact place_corr_agrees_model. Qed.
+Print Assumptions C12_place_model_agrees_itself.
+
+(* one script real/shared/report.sh (content 10) linked into two hook directories, once by a relative and
+   once by an absolute target, settings files 11 / 12 beside the links and 13 beside the script; the hooks
+   root mnt/hooks is reached through the link mnt -> real.
+   names: 0 settings, 1 hooks, 2 shared, 3 010-first, 4 020-second, 5 hook.sh, 6 report.sh, 7 mnt, 8 real;
+   directories: 0 sandbox, 1 real, 2 real/hooks, 3 real/hooks/010-first, 4 real/hooks/020-second, 5 real/shared *)
+Definition ex_tree : tfs :=
+  mkT [(0, 8, TDir 1); (0, 7, TLink false [CName 8]); (1, 1, TDir 2); (1, 2, TDir 5); (2, 3, TDir 3); (2, 4, TDir 4);
+       (3, 5, TLink false [CUp; CUp; CName 2; CName 6]); (3, 0, TFile false 11);
+       (4, 5, TLink true [CName 8; CName 2; CName 6]); (4, 0, TFile false 12);
+       (5, 6, TFile true 10); (5, 0, TFile false 13)]
+      [(1, 0); (2, 1); (3, 2); (4, 2); (5, 1)].
+Definition ex_place : pinput := mkPI ex_tree [7; 1] 0.
+Example C12_place_hyp_met :
+  resolve ex_tree [7; 1] = Some (RDir 2)
+  /\ descend ex_tree 2 [3] = Some 3 /\ descend ex_tree 2 [4] = Some 4
+  /\ resolve ex_tree [7; 1; 3; 5] = Some (RFile true 10) /\ resolve ex_tree [7; 1; 4; 5] = Some (RFile true 10)
+  /\ launch ex_tree ([7; 1] ++ [3] ++ [5]) = mkL true [7; 1; 3; 5] 10 3
+  /\ launch ex_tree ([7; 1] ++ [4] ++ [5]) = mkL true [7; 1; 4; 5] 10 4
+  /\ own_dir ex_place [3; 5] = Some 3
+  /\ hooks_root_dir ex_place = Some 2
+  /\ found 4 ex_tree 2 = [[3; 5]; [3; 0]; [4; 5]; [4; 0]]
+  /\ model_settings ex_place [3; 5] = Some 11 /\ model_settings ex_place [4; 5] = Some 12
+  (* the predicate is not vacuous: a process started beside the script (directory 5, ./settings = 13) violates
+     it, and so does one started in the right directory that finds another settings file *)
+  /\ P_place1 ex_place (mkPO [3; 5] true [7; 1; 3; 5] 10 3 (Some 11) false 0) = true
+  /\ P_place1 ex_place (mkPO [3; 5] true [8; 2; 6] 10 5 (Some 13) false 0) = false
+  /\ P_place1 ex_place (mkPO [3; 5] true [7; 1; 3; 5] 10 3 (Some 13) false 0) = false
+  /\ P_place1 ex_place (mkPO [3; 5] false [] 0 0 None false 0) = false
+  (* a dangling entry and a link to a directory do not start *)
+  /\ l_started (launch ex_tree [7; 1; 3; 9]) = false /\ l_started (launch ex_tree [7; 1; 3]) = false.
 Proof. vm_compute. repeat split; reflexivity. Qed.
